@@ -41,6 +41,9 @@ type Engine struct {
 	intrCache  sync.Map // *ssa.Function -> intrinsic (or nil marker)
 	natives    map[string]interface{}
 	typeCache  sync.Map
+	fnInfos    sync.Map
+	ifaceChecks sync.Map
+	methodCache sync.Map
 }
 
 type prefixIntrinsic struct {
@@ -96,6 +99,10 @@ func Load(cfg LoadConfig) (*Engine, error) {
 		MaxSwitches:     6,
 	}
 	e.registerIntrinsics()
+	// syntax trees and type-checker side tables are no longer needed once all function bodies are built
+	initial = nil
+	pcfg = nil
+	runtime.GC()
 	e.LoadSeconds = time.Since(start).Seconds()
 	return e, nil
 }
@@ -159,6 +166,7 @@ type Result struct {
 	Funcs       map[string]int
 	Solver      SolverStats
 	Steps       int64
+	InitSteps   int64
 	WallSeconds float64
 	Samples     []PathSample
 	Exhausted   bool // false if MaxPaths hit
@@ -192,6 +200,7 @@ func (e *Engine) Explore(fn *ssa.Function, opt Options) *Result {
 		opt.MaxViolations = 5
 	}
 	var mu sync.Mutex
+	seenFns := map[*ssa.Function]struct{}{}
 	queue := [][]int{{}}
 	if opt.OnlyPrefix != nil {
 		queue = [][]int{opt.OnlyPrefix}
@@ -239,6 +248,7 @@ func (e *Engine) Explore(fn *ssa.Function, opt Options) *Result {
 				active--
 				res.Paths++
 				res.Steps += p.steps
+				res.InitSteps += p.initSteps
 				res.Obligations += p.obligations
 				res.Discharged += p.discharged
 				res.Unknowns += p.unknowns
@@ -251,8 +261,13 @@ func (e *Engine) Explore(fn *ssa.Function, opt Options) *Result {
 				for k, v := range p.notes {
 					res.Notes[k] += v
 				}
-				for k, v := range p.funcs {
-					res.Funcs[k] = v
+				for f := range p.funcsSeen {
+					if _, ok := seenFns[f]; !ok {
+						seenFns[f] = struct{}{}
+						if e.inRepo(f) {
+							res.Funcs[f.String()] = countInstrs(f)
+						}
+					}
 				}
 				if p.discharged > 0 || len(p.reached) > 0 {
 					res.Nontrivial++
@@ -326,7 +341,7 @@ func (p *pathResult) sample() PathSample {
 func (e *Engine) runPath(fn *ssa.Function, prefix []int, solver *Solver, opt Options) (pr *pathResult) {
 	solver.Reset()
 	p := &Path{eng: e, solver: solver, prefix: prefix, facts: map[string]bool{}, reached: map[string]int{},
-		bounds: opt.Bounds, maxSteps: e.MaxSteps, env: map[string]string{}, notes: map[string]int{}, funcs: map[string]int{}, mapOrder: opt.MapOrder}
+		bounds: opt.Bounds, maxSteps: e.MaxSteps, env: map[string]string{}, notes: map[string]int{}, funcs: map[string]int{}, funcsSeen: map[*ssa.Function]struct{}{}, mapOrder: opt.MapOrder}
 	for k, v := range opt.Env {
 		p.env[k] = v
 	}
